@@ -6,6 +6,7 @@ import RisorModel.C01.PrattOracle
 import RisorModel.C01.FragOracle
 import RisorModel.C01.FunOracle
 import RisorModel.C01.CloOracle
+import RisorModel.C01.SeqOracle
 /-! Line-protocol front end of the C01 model.
   `eval <sexp>` → `ok <value> <stdout-hex>` | `err <class> <stdout-hex>` | `oof` | `unsupported <what>` -/
 namespace Risor.C01
@@ -89,6 +90,7 @@ def handle : List String → String
   | "frag" :: rest => handleFrag rest
   | "fun" :: rest => handleFun rest
   | "clo" :: rest => handleClo rest
+  | "seq" :: rest => handleSeq rest
   | _ => "error\tunknown-request"
 
 end Risor.C01
